@@ -27,7 +27,7 @@ def _job(args):
     out = dict(n=0, nontrivial=0, stats={}, violations=[], disagreements=[], pairs=[], samples=[], known=[])
     for it in range(n):
         root, dirs, files = scan.gen_tree(rng, max_depth=5)
-        scan.gen_imports(rng, dirs, files, externals=scan.EXTERNALS if it % 3 == 2 else (), nested=False, per_file=6 if it % 3 == 2 else 4)
+        scan.gen_imports(rng, dirs, files, externals=scan.EXTERNALS if it % 3 == 2 else (), nested=True, per_file=6 if it % 3 == 2 else 4)
         base = scan.materialise(dirs, files)
         try:
             # module_path = root, and one directory at each depth below it (1, 2, 3+ levels below root)
